@@ -131,13 +131,13 @@ def alerts_behaviours(chk):
     plan = []   # (cfg, sample size or None)
     for n in (1, 2, 3):
         plan.append(("Gen_Alerts_n%d_c0" % n, None))                       # all condition sequences of length 7
-        plan.append(("Gen_Alerts_n%d_c2" % n if quick else "Gen_Alerts_n%d_c2_deep" % n, 300 if quick else 6000))
-        plan.append(("Gen_Alerts_n%d_edit" % n, None if not quick else 120))
-        plan.append(("Gen_Alerts_n%d_sil" % n, 200 if quick else 3000))
-        plan.append(("Gen_Alerts_n%d_fail" % n, 250 if quick else None))        # contact point unreachable at <= 2 evaluations
-        plan.append(("Gen_Alerts_n%d_fail_c2" % n, 150 if quick else 4000))
-    plan.append(("Gen_Alerts_n2_edit2", 200 if quick else 2500))
-    plan.append(("Gen_Alerts_n3_edit2", 150 if quick else None))
+        plan.append(("Gen_Alerts_n%d_c2" % n if quick else "Gen_Alerts_n%d_c2_deep" % n, 200 if quick else 6000))
+        plan.append(("Gen_Alerts_n%d_edit" % n, None if not quick else 80))
+        plan.append(("Gen_Alerts_n%d_sil" % n, 120 if quick else 3000))
+        plan.append(("Gen_Alerts_n%d_fail" % n, 100 if quick else None))        # contact point unreachable at <= 2 evaluations
+        plan.append(("Gen_Alerts_n%d_fail_c2" % n, 100 if quick else 4000))
+    plan.append(("Gen_Alerts_n2_edit2", 100 if quick else 2500))
+    plan.append(("Gen_Alerts_n3_edit2", 100 if quick else None))
     gens = vlib.pmap(lambda p: vlib.tlc_generate("Gen_Alerts", p[0] + ".cfg", timeout=1200), plan, workers=4)
     out = []
     for (cfg, k), (behs, r) in zip(plan, gens):
